@@ -493,6 +493,9 @@ class SimLoop(base_events.BaseEventLoop):
             await asyncio.sleep(0)
         srv = self.net.listeners.get((host, port))
         self.net.connect_log.append((self.time(), host, port, srv is not None))
+        if (host, port) in getattr(self.net, "blackholes", ()):
+            # a filtered endpoint: the SYN is never answered (a real stack gives up after minutes; here: never)
+            await self.create_future()
         if srv is None:
             raise ConnectionRefusedError(errno.ECONNREFUSED, "Connection refused")
         self.net.next_port += 1
